@@ -1,7 +1,8 @@
 SPECIFICATION Spec
-CONSTANTS S = 40  MaxReq = 4  DataSizes = {1, 8, 10, 19, 20, 21, 35}
+CONSTANTS S = 40  MaxReq = 4  DataSizes = {1, 8, 10, 19, 20, 21, 35}  PathLens = {2, 8, 14}
 INVARIANT ExactlyOnePacket
 INVARIANT NoEmptyPacket
 INVARIANT GroupReplyFits
+INVARIANT GroupRequestFits
 INVARIANT OrderPreserved
 CHECK_DEADLOCK FALSE
